@@ -520,6 +520,83 @@ pub fn structured_faults(doc: &J, sink: &mut dyn FnMut(Faulted)) {
     }
 }
 
+/// Arrays stored in ndarray's format `{"v":1,"dim":[..],"data":[..]}` resized CONSISTENTLY
+/// (dim and data altered together, so that the array itself still loads): one or two elements
+/// more or fewer, a row / column more or fewer, a transposed shape. What must then refuse the
+/// document - or accept it as a value with sound shape - is the owning type's own validation.
+pub fn ndarray_resizes(doc: &J, sink: &mut dyn FnMut(Faulted)) {
+    for p in paths(doc) {
+        let m = match get(doc, &p) {
+            Some(J::Obj(m)) => m,
+            _ => continue,
+        };
+        let find = |k: &str| m.iter().position(|(n, _)| n.trim_matches('"') == k);
+        let (di, da) = match (find("dim"), find("data"), find("v")) {
+            (Some(a), Some(b), Some(_)) => (a, b),
+            _ => continue,
+        };
+        let dims: Vec<usize> = match &m[di].1 {
+            J::Arr(a) => a
+                .iter()
+                .filter_map(|x| match x {
+                    J::Num(n) => n.parse::<usize>().ok(),
+                    _ => None,
+                })
+                .collect(),
+            _ => continue,
+        };
+        let data: Vec<J> = match &m[da].1 {
+            J::Arr(a) => a.clone(),
+            _ => continue,
+        };
+        let here = describe(doc, &p);
+        let filler = data.last().cloned().unwrap_or(J::Num("0.0".into()));
+        let mut emit = |nd: Vec<usize>, ndata: Vec<J>, what: String| {
+            let mut d = doc.clone();
+            if let Some(J::Obj(mm)) = get_mut(&mut d, &p) {
+                mm[di].1 = J::Arr(nd.iter().map(|x| J::Num(x.to_string())).collect());
+                mm[da].1 = J::Arr(ndata);
+            }
+            sink(Faulted {
+                kind: "VALUE_ALTER",
+                what: format!("array at {} resized consistently: {}", here, what),
+                text: render(&d),
+            });
+        };
+        if dims.len() == 1 && dims[0] == data.len() {
+            let l = data.len();
+            for nl in [l + 1, l + 2, 2 * l, l.saturating_sub(1), l.saturating_sub(2)] {
+                if nl == l {
+                    continue;
+                }
+                let mut nd = data.clone();
+                nd.resize(nl, filler.clone());
+                emit(vec![nl], nd, format!("{} -> {} elements", l, nl));
+            }
+        } else if dims.len() == 2 && dims[0] * dims[1] == data.len() {
+            let (r, c) = (dims[0], dims[1]);
+            let mut shapes = vec![(r + 1, c), (r, c + 1), (r + 1, c + 1), (c, r)];
+            if r > 0 {
+                shapes.push((r - 1, c));
+            }
+            if c > 0 {
+                shapes.push((r, c - 1));
+            }
+            if r > 0 && c > 0 {
+                shapes.push((r - 1, c - 1));
+            }
+            for (nr, nc) in shapes {
+                if (nr, nc) == (r, c) {
+                    continue;
+                }
+                let mut nd = data.clone();
+                nd.resize(nr * nc, filler.clone());
+                emit(vec![nr, nc], nd, format!("{}x{} -> {}x{}", r, c, nr, nc));
+            }
+        }
+    }
+}
+
 fn degenerate_of(j: &J) -> J {
     match j {
         J::Num(_) => J::Num("0".into()),
